@@ -20,7 +20,7 @@ STREAM_FES = ("pandas", "numpy", "netcdf_obj", "netcdf_path", "xarray_obj", "xar
 
 
 def generate(rng, tier="quick"):
-    tbl = wl.gen_table(rng, max_n=24 if tier == "quick" else 40, no_time_p=0.06, unsorted_p=0.08, frac_p=0.1, nat_p=0.06)
+    tbl = wl.gen_table(rng, max_n=24 if tier == "quick" else 40, no_time_p=0.06, unsorted_p=0.08, frac_p=0.18, nat_p=0.06)
     if rng.chance(0.12):
         tbl["xr_time"] = "var"
     cfg = wl.gen_config(rng, tbl, max_ctx=4, max_tests=3)
